@@ -11,8 +11,64 @@ def mk_case(cfg, progs, sched):
 
 
 def steps_upper(cfg, prog):
+    cfg = effective(cfg)
     per = {"W": 3, "D": 4} if cfg["kind"] == "aimd" else {"W": 2, "D": 1}
     return sum(per[c] for c in prog)
+
+
+def effective(cfg):
+    """the configuration a header stands for — for budgets built through RetryBudgetBuilder (`chain=`) the monitors work
+    it out themselves: setters in order, last of a kind wins, unnamed settings keep the documented defaults"""
+    if "chain" not in cfg:
+        return cfg
+    items = [x for x in cfg["chain"].split(".") if x and x != "-"]
+    if cfg.get("kind") == "aimd":
+        e = {"kind": "aimd", "min": 10, "max": 1000, "dep": 1, "wd": 1, "fnum": 1, "fden": 2}
+        key = {"n": "min", "x": "max", "d": "dep", "w": "wd"}
+        for it in items:
+            if it[0] in key:
+                e[key[it[0]]] = int(it[1:])
+            elif it[0] == "f":
+                e["fnum"], e["fden"] = (int(x) for x in it[1:].split("_"))
+        return {k: str(v) for k, v in e.items()}
+    mx, ini = 100, None
+    for it in items:
+        if it[0] == "m":
+            mx = int(it[1:])
+        elif it[0] == "i":
+            ini = int(it[1:])
+    return {"kind": "token", "max": str(mx), "initial": str(mx if ini is None else ini)}
+
+
+def gen_chain(rng, cfg):
+    """the same configuration expressed as a builder chain: setters in a random order, some given twice (the last one
+    counts), some left out where the default is what is wanted"""
+    if cfg["kind"] == "token":
+        items = ["m%d" % cfg["max"], "i%d" % cfg["initial"]]
+        if rng.random() < 0.3:
+            items.append("i%d" % rng.randint(0, cfg["max"] + 3))       # overridden below or by order
+            items.append("i%d" % cfg["initial"])
+        if rng.random() < 0.3:
+            items.append("r%d" % rng.randint(1, 50))
+        if rng.random() < 0.25:
+            items = [x for x in items if not x.startswith("i")]         # initial = max_tokens at build()
+    else:
+        items = ["n%d" % cfg["min"], "x%d" % cfg["max"], "d%d" % cfg["dep"], "w%d" % cfg["wd"], "f%d_%d" % (cfg["fnum"], cfg["fden"])]
+        if rng.random() < 0.3:
+            items.append("x%d" % rng.choice([2, 5, 50]))
+            items.append("x%d" % cfg["max"])
+    if rng.random() < 0.7:
+        rng.shuffle(items)
+        # a duplicated setter: keep the intended value last
+        for k in ("i", "x"):
+            vals = [x for x in items if x.startswith(k)]
+            if len(vals) > 1:
+                want = "i%d" % cfg["initial"] if k == "i" else "x%d" % cfg["max"]
+                items = [x for x in items if x != want] + [want]
+    out = {"kind": cfg["kind"], "chain": ".".join(items) or "-"}
+    if "inner" in cfg:
+        out["inner"] = cfg["inner"]
+    return out
 
 
 def gen_cfg(rng):
@@ -85,6 +141,8 @@ def gen(rng, tier):
         n = rng.randint(0, int(total * 2.2) + 2)
         while len(sched) < n:
             sched += [rng.randrange(nt)] * rng.choice([1, 1, 2])
+    if rng.random() < 0.15:
+        cfg = gen_chain(rng, cfg)
     return mk_case(cfg, progs, sched[:n])
 
 
@@ -131,7 +189,7 @@ def gen_thorough(rng, tier):
 
 
 def parse_run(case, lines):
-    cfg = kvs(case["header"])
+    cfg = effective(kvs(case["header"]))
     outs = {}
     bal = lim = None
     for l in lines:
@@ -225,6 +283,8 @@ def transitions(case, lines):
     tags = []
     cfg = kvs(case["header"])
     tags.append("kind-" + cfg.get("kind", "token"))
+    if "chain" in cfg:
+        tags.append("built-through-builder")
     if cfg.get("inner") == "1":
         tags.append("preempted-inside-fetch-update")
     for l in lines:
@@ -246,7 +306,7 @@ SPECS = {
         "group": "budget", "module": "TR.Props.C08", "gen": gen_thorough,
         "monitors": [("c08-conservation", mon_conservation), ("c08-linearizable", mon_linearizable)],
         "transitions": transitions, "nontrivial": nontrivial, "model_applies": model_applies, "canon": canon_step, "canon_protocol": canon_protocol,
-        "all_transitions": ["kind-token", "kind-aimd", "withdraw-granted", "withdraw-refused", "deposit", "skip", "preempted-inside-fetch-update"],
+        "all_transitions": ["kind-token", "kind-aimd", "withdraw-granted", "withdraw-refused", "deposit", "skip", "preempted-inside-fetch-update", "built-through-builder"],
         "model_modules": ["TR.Model.Budget", "TR.Lemmas.Budget", "TR.Lemmas.BudgetCons", "TR.Model.BudgetTrace", "TR.Lemmas.BudgetTrace", "TR.Lemmas.BudgetTraceOuts", "TR.Mutants.DepositLoadStore"],
         "lean_files": ["TR.Model.Budget", "TR.Lemmas.Budget", "TR.Lemmas.BudgetCons", "TR.Model.BudgetTrace", "TR.Lemmas.BudgetTrace", "TR.Lemmas.BudgetTraceOuts"],
         "sizes": (500, 20000),
